@@ -150,11 +150,27 @@ class IllegalChild(Exception):
 class IllegalText(Exception):
     """ Complains if you add text or cdata to an element where it is not allowed """
 
+def _set_owner_doc(node, doc):
+    """ Record the document a whole subtree belongs to (None: detached) """
+    node.ownerDocument = doc
+    for child in node.childNodes:
+        _set_owner_doc(child, doc)
+
 class Node(xml.dom.Node):
     """ super class for more specific nodes """
     parentNode = None
     nextSibling = None
     previousSibling = None
+    ownerDocument = None
+
+    def _adopt(self, newChild):
+        """ newChild has just been linked under this node: it now belongs to the
+            document this node belongs to, and that document's lookups must see it
+        """
+        doc = self.ownerDocument
+        _set_owner_doc(newChild, doc)
+        if doc is not None and newChild.nodeType == Node.ELEMENT_NODE:
+            doc.rebuild_caches(newChild)
 
     def hasChildNodes(self):
         """ Tells whether this element has any children; text nodes,
@@ -207,6 +223,7 @@ class Node(xml.dom.Node):
             else:
                 newChild.previousSibling = None
             newChild.parentNode = self
+            self._adopt(newChild)
         return newChild
 
     def appendChild(self, newChild):
@@ -224,6 +241,7 @@ class Node(xml.dom.Node):
             newChild.parentNode.removeChild(newChild)
         _append_child(self, newChild)
         newChild.nextSibling = None
+        self._adopt(newChild)
         return newChild
 
     def removeChild(self, oldChild):
@@ -239,9 +257,11 @@ class Node(xml.dom.Node):
         if oldChild.previousSibling is not None:
             oldChild.previousSibling.nextSibling = oldChild.nextSibling
         oldChild.nextSibling = oldChild.previousSibling = None
-        if self.ownerDocument:
-            self.ownerDocument.remove_from_caches(oldChild)
         oldChild.parentNode = None
+        doc = self.ownerDocument
+        if doc is not None and oldChild.nodeType == Node.ELEMENT_NODE:
+            doc.remove_from_caches(oldChild)
+        _set_owner_doc(oldChild, None)
         return oldChild
 
     def __str__(self):
@@ -447,9 +467,6 @@ class Element(Node):
             if element.qname not in self.allowed_children:
                 raise IllegalChild( "<%s> is not allowed in <%s>" % ( element.tagName, self.tagName))
         self.appendChild(element)
-        self._setOwnerDoc(element)
-        if self.ownerDocument:
-            self.ownerDocument.rebuild_caches(element)
 
     def addText(self, text, check_grammar=True):
         """ Adds text to an element
